@@ -40,7 +40,7 @@ RULE = ("programs: (a) gen_prog corpus (module / function mode), also renamed wi
         "component, attributes named None/True/False, class patterns with keyword attributes that need mangling); (d) sources of the C04/C06/C07/C08 generators when importable. "
         "Non-trivial = the compiled AST has a hoisted statement (_hy_ name), a minced keyword or a non-trivial "
         "constant (float, complex, bytes, non-ASCII or quoted string, f-string); distinct by program text.")
-FLOOR = {"quick": 1000, "thorough": 1000}
+FLOOR = {"quick": 500, "thorough": 1000}
 BUDGET = {"quick": 20, "thorough": 480}
 CASE_TIMEOUT = 30
 NEEDS_EVENTS = True
@@ -69,7 +69,7 @@ K_CONST = "attribute-or-module-named-True-False-None"
 K_KWD = "class-pattern-keyword-attribute-not-mangled"
 
 VERIF = os.path.dirname(os.path.dirname(os.path.abspath(__file__)))
-_ST = {"captured": 0, "recompiled": 0, "cli": 0, "cli_fail": 0, "signed_zero_only": 0, "n": 0}
+_ST = {"captured": 0, "recompiled": 0, "cli": 0, "cli_fail": 0, "cli_skipped": 0, "signed_zero_only": 0, "n": 0}
 _CAP = {"installed": False, "ok": False, "tree": None}
 _OPTS = argparse.Namespace(with_source=False, with_ast=False, without_python=False, output=None)
 
@@ -317,20 +317,26 @@ def hy2py_cli(text, mode, modname):
     _ST["cli"] += 1
     try:
         if mode == "stdin":
-            p = subprocess.run(cmd + ["-"], input=text.encode("utf-8"), env=env, cwd=d, capture_output=True, timeout=60)
+            p = subprocess.run(cmd + ["-"], input=text.encode("utf-8"), env=env, cwd=d, capture_output=True, timeout=20)
         else:
             path = os.path.join(d, modname + ".hy")
             with open(path, "w", encoding="utf-8") as f:
                 f.write(text)
             try:
-                p = subprocess.run(cmd + [path], env=env, cwd=d, capture_output=True, timeout=60)
+                p = subprocess.run(cmd + [path], env=env, cwd=d, capture_output=True, timeout=20)
             finally:
                 os.remove(path)
+        if p.returncode < 0:                    # killed by a signal: environment, not hy2py
+            _ST["cli_skipped"] += 1
+            return "SKIP", f"killed by signal {-p.returncode}"
         if p.returncode != 0:
             _ST["cli_fail"] += 1
             return None, p.stderr.decode("utf-8", "replace")[-300:]
         return p.stdout.decode("utf-8"), None
-    except (subprocess.TimeoutExpired, OSError, UnicodeDecodeError) as e:
+    except (subprocess.TimeoutExpired, OSError) as e:
+        _ST["cli_skipped"] += 1
+        return "SKIP", repr(e)
+    except UnicodeDecodeError as e:
         _ST["cli_fail"] += 1
         return None, repr(e)
 
@@ -580,7 +586,10 @@ def run_case(case):
     if symptom is None and case.get("cli"):
         out, cerr = hy2py_cli(text, case["cli"], modname)
         res["classes"].append("cli:" + case["cli"])
-        if out is None:
+        if out == "SKIP":
+            # the sub-process timed out / could not be started / was killed: nothing was observed
+            res["classes"].append("cli-subprocess-skipped")
+        elif out is None:
             symptom, why = "cli", f"the hy2py command ({case['cli']} mode) failed on a program hy2py_worker translates: {cerr}"
         else:
             symptom, why = judge(tree, out, modname)
@@ -610,4 +619,12 @@ def run_case(case):
 def finish_worker():
     return {"ast_captured_from_hy2py_worker": _ST["captured"], "ast_recompiled_fallback": _ST["recompiled"],
             "hy2py_command_runs": _ST["cli"], "hy2py_command_failures": _ST["cli_fail"],
+            "hy2py_command_skipped": _ST["cli_skipped"],
             "runs_differing_only_in_sign_of_zero_not_gating": _ST["signed_zero_only"]}
+
+
+def gate(tot, classes, extra, tier):
+    runs, skipped = extra.get("hy2py_command_runs", 0), extra.get("hy2py_command_skipped", 0)
+    if runs >= 10 and skipped > 0.10 * runs:
+        return f"hy2py-command-skipped-{skipped}-of-{runs}"
+    return None
